@@ -43,6 +43,9 @@ struct SoundSpec {
 	base: f32,
 	step: f32,
 	len: Option<usize>,
+	/// a real static sound whose start time lies 10 000 s ahead is put on the same track first: it
+	/// is asked for audio like any other sound and must contribute exact silence
+	idle_first: bool,
 }
 
 #[derive(Debug, Clone, PartialEq)]
@@ -436,6 +439,7 @@ struct Real {
 	sounds: Vec<Option<ProbeSoundHandle>>,
 	sound_logs: Vec<Option<Arc<crate::probes::SoundLog>>>,
 	fx_logs: Vec<(Option<usize>, Arc<EffectLog>)>,
+	idle: Vec<Option<kira::sound::static_sound::StaticSoundHandle>>,
 }
 
 fn add_fx_main(b: &mut MainTrackBuilder, fx: &[Fx], logs: &mut Vec<(Option<usize>, Arc<EffectLog>)>) {
@@ -474,6 +478,7 @@ fn run_case(c: &Case) -> Result<(bool, bool), Failure> {
 		sounds: vec![],
 		sound_logs: vec![],
 		fx_logs,
+		idle: vec![],
 	};
 	let mut model = Model {
 		tracks: vec![],
@@ -576,6 +581,22 @@ fn run_case(c: &Case) -> Result<(bool, bool), Failure> {
 					Some((l, r)) => Signal::Dc(l, r),
 					None => Signal::Ramp { base: spec.base, step: spec.step },
 				};
+				if spec.idle_first {
+					let idle = kira::sound::static_sound::StaticSoundData {
+						sample_rate: SR,
+						frames: (0..64).map(|_| kira::Frame::new(0.7, -0.7)).collect::<Vec<_>>().into(),
+						settings: kira::sound::static_sound::StaticSoundSettings::new().loop_region(..).start_time(kira::StartTime::Delayed(Duration::from_secs(10_000))),
+						slice: None,
+					};
+					let h = match spec.track {
+						None => real.mgr.play(idle).ok(),
+						Some(t) => match real.tracks.get_mut(t) {
+							Some(Some(th)) => th.play(idle).ok(),
+							_ => None,
+						},
+					};
+					real.idle.push(h);
+				}
 				let data = ProbeSoundData::new(signal, spec.len);
 				let h = match spec.track {
 					None => real.mgr.play(data).ok(),
@@ -846,6 +867,7 @@ fn decode(src: &mut Src, tier: Tier) -> Case {
 					base: src.f32_in(-0.2, 0.2),
 					step: src.pick(&[0.001f32, -0.0005, 0.0001, 0.002]),
 					len: if src.chance(1, 3) { Some(src.usize_in(0, 200)) } else { None },
+					idle_first: src.chance(1, 6),
 				})
 			}
 			4 => Op::FinishSound(src.index(n_sounds)),
